@@ -321,7 +321,18 @@ def parse_statement(line) -> Optional[Assign]:
     m = re.match(r"^(.*?) = (.*)$", t)
     if not m:
         raise Unsupported(f"statement: {t!r}")
-    return Assign(parse_place(m.group(1)), parse_rvalue(m.group(2)), t)
+    try:
+        rv_text = m.group(2)
+        if rv_text.startswith("no_retag "):
+            rv_text = rv_text[len("no_retag "):]
+        return Assign(parse_place(m.group(1)), parse_rvalue(rv_text), t)
+    except Unsupported as e:
+        # kept as an opaque statement: only an execution that reaches it is unsupported
+        try:
+            dst = parse_place(m.group(1))
+        except Unsupported:
+            dst = Place(0)
+        return Assign(dst, ("unsupported", str(e)), t)
 
 
 TERM_START = ("goto", "switchInt", "return", "unreachable", "resume", "drop(", "assert(")
